@@ -107,7 +107,7 @@ CHECKS = [
      "technique": "model-based stateful property testing (Hypothesis RuleBasedStateMachine: heap vs list scheduler vs dictionary model) + coverage-guided fuzzing (libFuzzer, ASan+UBSan) of heap.c with an in-target reference model",
      "text": "Generated push/trash/get/pickle/burst/counter-overflow histories drive HeapScheduler, ListScheduler and a dictionary model "
              "together; after every get the returned handler must be live with the minimal (quotient, remainder); empty gets raise "
-             "SchedulerError. The raw C heap is fuzzed byte-wise (insert/root/delete_events/entry, tie-heavy time alphabet, fills up to "
+             "SchedulerError; an unpickled twin driven in lockstep must return the same handlers (ties included). The raw C heap is fuzzed byte-wise (insert/root/delete_events/entry, tie-heavy time alphabet, fills up to "
              "the exact reallocation capacity) with an array model inside the target and sanitizers for memory safety.",
      "note": "Trusted: the dictionary model, dill for the round trip, clang sanitizers. White-box step: HeapScheduler._minimal_valid_counter "
              "is preset (never lowered) to 2^32-k to reach the overflow branch. libFuzzer campaigns are pinned by -seed/-runs only approximately; "
